@@ -4,6 +4,17 @@ use crate::fields::{
 };
 use crate::lossless::relations::Relations;
 
+#[cfg(feature = "chrono")]
+/// Parse a Release file date: RFC 2822 style, but archives write the zone as "UTC",
+/// which strict RFC 2822 parsers reject.
+fn parse_release_date(s: &str) -> Option<chrono::DateTime<chrono::FixedOffset>> {
+    let s = s.trim();
+    match s.strip_suffix(" UTC") {
+        Some(prefix) => chrono::DateTime::parse_from_rfc2822(&format!("{} +0000", prefix)).ok(),
+        None => chrono::DateTime::parse_from_rfc2822(s).ok(),
+    }
+}
+
 /// A source package in the APT package manager.
 pub struct Source(deb822_lossless::Paragraph);
 
@@ -842,7 +853,7 @@ impl Release {
         self.0
             .get("Date")
             .as_ref()
-            .map(|s| chrono::DateTime::parse_from_rfc2822(s).unwrap())
+            .and_then(|s| parse_release_date(s))
     }
 
     #[cfg(feature = "chrono")]
@@ -857,7 +868,7 @@ impl Release {
         self.0
             .get("Valid-Until")
             .as_ref()
-            .map(|s| chrono::DateTime::parse_from_rfc2822(s).unwrap())
+            .and_then(|s| parse_release_date(s))
     }
 
     #[cfg(feature = "chrono")]
